@@ -11,6 +11,11 @@ comparator are the ones regenerated from /repo.
      requirement a:b:u is falsified iff (val a + val b) % 5 = 0; u = index of its activation flag or "-"
      (always active); the checker consumes both generators (3 and 2 elements per evaluated requirement)
   setorder <size> <ids..>  -> ids in slot order
+  deps | <instances> | <params> | <objects> | <behavior values> | <ids needing sampling> | <Samplable ids>
+       { | <funcs fid:cell,cell.. with "/" between atomic propositions> | <binding values> | <canSee 0/1> <ego id or -> }
+       (one triple per requirement)
+      -> "ok c=<closures of req 1, "/" between atoms>;<req 2>.. d=<dependencies of req 1>;.. R=<requirement deps> D=<Scenario.dependencies>"
+     computed by Model/DepOrder.lean with the container kinds, segment order and source order regenerated from /repo
 -/
 namespace Driver.C15
 open Driver Scenic.Det
@@ -92,8 +97,51 @@ def handleGen (n maxIt : Nat) (py np order : List Nat) (tbl : Table) (probs view
   let scenes := " ".intercalate (r.scenes.map showScene)
   s!"ok={if r.ok then 1 else 0} scenes={scenes} py={py.length - r.rs.py.length} np={np.length - r.rs.np.length}"
 
+def parseFunc (w : String) : Option (Id × List Id) :=
+  match w.splitOn ":" with
+  | [f, cs] => do
+    let f ← f.toNat?
+    let cs ← if cs == "" || cs == "-" then some [] else (cs.splitOn ",").mapM (·.toNat?)
+    pure (f, cs)
+  | _ => none
+
+def splitSlash : List String → List (List String)
+  | [] => [[]]
+  | w :: ws =>
+    match splitSlash ws with
+    | [] => [[w]]
+    | g :: gs => if w == "/" then [] :: g :: gs else (w :: g) :: gs
+
+def parseReqSrcs : List (List String) → Option (List ReqSrc)
+  | [] => some []
+  | funcs :: bindings :: [cs, ego] :: rest => do
+    let fs ← (if funcs.isEmpty then [] else splitSlash funcs).mapM (·.mapM parseFunc)
+    let bs ← nats bindings
+    let cs ← cs.toNat?
+    let ego ← if ego == "-" then some none else ego.toNat?.map some
+    let more ← parseReqSrcs rest
+    pure ({ atoms := fs, bindings := bs, canSee := cs != 0, ego := ego } :: more)
+  | _ => none
+
+def showIds (l : List Id) : String :=
+  if l.isEmpty then "-" else ",".intercalate (l.map toString)
+
+def handleDeps (I : CompileInput) : String :=
+  let k := Scenic.Gen.detKinds
+  let srcs := Scenic.Gen.detCompileSources
+  let segs := Scenic.Gen.detDependencySegs
+  let cl := ";".intercalate (I.reqs.map fun r => "/".intercalate (r.atoms.map fun fs => showIds (atomClosures k fs)))
+  let ds := ";".intercalate (I.reqs.map fun r => showIds (reqDeps k srcs I r))
+  s!"ok c={cl} d={ds} R={showIds (requirementDeps k srcs I)} D={showIds (dependencies k srcs segs I)}"
+
 def handle (ws : List String) : String :=
   match splitBar ws with
+  | ["deps"] :: inst :: params :: objs :: beh :: needs :: samp :: reqs =>
+    match nats inst, nats params, nats objs, nats beh, nats needs, nats samp, parseReqSrcs reqs with
+    | some inst, some params, some objs, some beh, some needs, some samp, some reqs =>
+      handleDeps { instances := inst, params := params, objects := objs, reqs := reqs, behaviorVals := beh,
+                   needs := needs, samplable := samp }
+    | _, _, _, _, _, _, _ => "bad-op"
   | [["sample"], py, np, order, nodes] =>
     match nats py, nats np, nats order, nodes.mapM parseNode with
     | some py, some np, some order, some tbl => handleSample py np order tbl
